@@ -111,6 +111,29 @@ func scenarioF10(c *Ctx) (*hist, bool, error) {
 	return h, h.c.nFail > nf, nil
 }
 
+// F33: forward iterator with Prefix p and Seek(k), k < p: the cursor parks on a key of [k, p)
+// and the iteration ends at once although keys >= k inside the prefix exist (memtable-resident
+// keys only: pickTables hides tables outside the prefix, so the result depended on placement).
+// Fixed in /repo ("fix: clamp a forward Seek below the iterator prefix to the prefix").
+func scenarioF33(c *Ctx) (*hist, bool, error) {
+	h, err := newHist(c, sysOpts{NKeep: 1, MaxLevels: 4, VThreshold: 32, TableSize: 1 << 20, BaseLevelSize: 8 << 10})
+	if err != nil {
+		return nil, false, err
+	}
+	defer h.close()
+	h.begin(0, true, 0)
+	h.modify(0, []byte("a"), []byte("1"), 0, 0, 0)
+	h.modify(0, []byte("b"), []byte("2"), 0, 0, 0)
+	h.modify(0, []byte("bc"), []byte("3"), 0, 0, 0)
+	h.commit(0, 0)
+	nf := h.c.nFail
+	h.begin(1, false, 0)
+	h.iterate(1, itOpts{Prefix: []byte("b")}, []byte("a"))
+	h.iterate(1, itOpts{Prefix: []byte("b"), Prefetch: true, PrefetchSize: 2}, []byte("aa"))
+	h.discard(1)
+	return h, h.c.nFail > nf, nil
+}
+
 type scenario struct {
 	id  string
 	run func(c *Ctx) (*hist, bool, error)
@@ -121,6 +144,7 @@ var scenarios = map[string][]scenario{
 	"C27": {{"F3", scenarioF3}},
 	"C36": {{"F3", scenarioF3}, {"F10", scenarioF10}},
 	"C01": {{"F1", scenarioF1}},
+	"C05": {{"F33", scenarioF33}},
 }
 
 // runScenarios executes the witnesses for a property first (corpus), as correspondence cases
